@@ -44,3 +44,24 @@ pub fn preview_probe() -> i32 {
     println!("ok {ok} bad {bad}");
     0
 }
+
+pub fn limit_probe() -> i32 {
+    let path = std::env::var("LAB_FILE").unwrap_or_else(|_| "/tmp/in.jxl".into());
+    let limit: usize = std::env::var("LAB_LIMIT").ok().and_then(|v| v.parse().ok()).unwrap_or(1 << 40);
+    let bytes = std::fs::read(&path).expect("read");
+    let render = |limit: usize| -> Result<(Vec<Vec<u32>>, usize), String> {
+        let tracker = jxl_grid::AllocTracker::with_limit(limit);
+        let image = jxl_oxide::JxlImage::builder().pool(jxl_oxide::JxlThreadPool::none()).alloc_tracker(tracker.clone()).read(std::io::Cursor::new(&bytes[..])).map_err(|e| format!("read: {e}"))?;
+        let r0 = tracker.verif_refused();
+        let r = image.render_frame(0).map_err(|e| format!("render: {e}"))?;
+        let planes = r.image_planar().iter().map(|fb| fb.buf().iter().map(|v| v.to_bits()).collect()).collect();
+        Ok((planes, tracker.verif_refused() - r0))
+    };
+    let full = render(1 << 40);
+    let lim = render(limit);
+    match (&full, &lim) {
+        (Ok((a, _)), Ok((b, refused))) => println!("both ok; refused under limit: {refused}; outputs equal: {}", a == b),
+        _ => println!("full {:?} limited {:?}", full.as_ref().map(|x| x.1), lim.as_ref().map(|x| x.1)),
+    }
+    0
+}
